@@ -18,7 +18,7 @@ from vf.ref import flat as F
 ID = "C08"
 LEVEL = "exploration"
 RULE = (
-    "hierarchy T/A/A2/B/C with the leaf attribute(s) (value, start, min, max, nominal) modified at a "
+    "hierarchy T/A/A2/B/C with the leaf attribute(s) (value, start, min, max, nominal, fixed, unit) modified at a "
     "drawn subset of the levels {type alias, declaration, extends clause, second extends clause, enclosing component, "
     "enclosing-enclosing component}, expressions literal / k / k+c / c*k where k exists with a "
     "different value in every scope; each case printed in 4 spellings (nested, a.x(start=..), "
@@ -31,7 +31,7 @@ ASSUMPTIONS = [
     "attribute values are compared by evaluation at the declared parameter values (5 / 3 / 2 per scope), not by shape",
 ]
 SPELLINGS = ["nested", "dotted_elem", "dotted_attr", "dotted_all"]
-ATTRS = ["start", "min", "max", "nominal", "value"]
+ATTRS = ["start", "min", "max", "nominal", "value", "fixed", "unit"]
 KVAL = {"KC": 5, "KB": 3, "KA": 2}
 
 
@@ -53,7 +53,7 @@ def mod_expr(draw, allow_k=True):
 
 
 @st.composite
-def case_strategy(draw):
+def case_strategy(draw, ctx=None):
     attr1 = draw(st.sampled_from(ATTRS))
     attrs = [attr1]
     if draw(st.integers(0, 2)) == 0:
@@ -61,7 +61,13 @@ def case_strategy(draw):
     leaf_param = draw(st.booleans())
     use_alias = draw(st.booleans())
     top = draw(st.sampled_from(["KC", "KC", "KB"]))
-    levels = ["type", "decl", "extends", "extends2", "comp"] + (["outer"] if top == "KC" else [])
+    layout = draw(st.sampled_from(["top", "top", "local", "package"]))
+    chain = True
+    if layout == "local" and ctx is not None and ctx.known("local_extends_scope"):
+        # known finding: modifications inherited from a LOCAL base class keep the base's scope and are dropped
+        chain = False
+        ctx.exclude("local_extends_scope")
+    levels = ["type", "decl"] + (["extends", "extends2"] if chain else []) + ["comp"] + (["outer"] if top == "KC" else [])
     mods = {lv: [] for lv in levels}
     for a in attrs:
         n = draw(st.integers(2, len(levels)))
@@ -69,8 +75,14 @@ def case_strategy(draw):
         for lv in chosen:
             if lv == "type" and (a == "value" or not use_alias):
                 continue
-            mods[lv].append([a, draw(mod_expr(allow_k=lv != "type"))])
-    return {"attrs": attrs, "leaf_param": leaf_param, "alias": use_alias, "top": top, "mods": mods}
+            if a == "fixed":
+                e = ["bool", draw(st.booleans())]
+            elif a == "unit":
+                e = ["str", draw(st.sampled_from(["m", "kg", "m/s", "K"]))]
+            else:
+                e = draw(mod_expr(allow_k=lv != "type"))
+            mods[lv].append([a, e])
+    return {"attrs": attrs, "leaf_param": leaf_param, "alias": use_alias, "top": top, "mods": mods, "layout": layout, "chain": chain}
 
 
 def build_lib(case):
@@ -88,20 +100,34 @@ def build_lib(case):
         comp("k", "Real", ["parameter"], value=["int", KVAL["KA"]]),
         comp("x", leaf_cls, ["parameter"] if case["leaf_param"] else [], mods=decl_mods),
     ]})
-    classes.append({"id": "KA2", "parent": None, "kind": "model", "extends": [{"cls": "KA", "mods": mk(["x"], "extends")}],
-                    "comps": [], "eqs": [], "ieqs": []})
-    # second extends level: A3 extends A2(x(..)) overrides what A2's own extends clause says
-    classes.append({"id": "KA3", "parent": None, "kind": "model", "extends": [{"cls": "KA2", "mods": mk(["x"], "extends2")}],
-                    "comps": [], "eqs": [], "ieqs": []})
+    chain = case.get("chain", True)
+    if chain:
+        classes.append({"id": "KA2", "parent": None, "kind": "model", "extends": [{"cls": "KA", "mods": mk(["x"], "extends")}],
+                        "comps": [], "eqs": [], "ieqs": []})
+        # second extends level: A3 extends A2(x(..)) overrides what A2's own extends clause says
+        classes.append({"id": "KA3", "parent": None, "kind": "model", "extends": [{"cls": "KA2", "mods": mk(["x"], "extends2")}],
+                        "comps": [], "eqs": [], "ieqs": []})
     classes.append({"id": "KB", "parent": None, "kind": "model", "extends": [], "eqs": [], "ieqs": [], "comps": [
         comp("k", "Real", ["parameter"], value=["int", KVAL["KB"]]),
-        comp("a", "KA3", mods=mk(["x"], "comp")),
+        comp("a", "KA3" if chain else "KA", mods=mk(["x"], "comp")),
     ]})
     if case["top"] == "KC":
         classes.append({"id": "KC", "parent": None, "kind": "model", "extends": [], "eqs": [], "ieqs": [], "comps": [
             comp("k", "Real", ["parameter"], value=["int", KVAL["KC"]]),
             comp("b", "KB", mods=mk(["a", "x"], "outer")),
         ]})
+    layout = case.get("layout", "top")
+    if layout == "local":
+        # every other class is a local class of the flattened model
+        top = [c for c in classes if c["id"] == case["top"]][0]
+        for c in classes:
+            if c is not top:
+                c["parent"] = case["top"]
+        classes = [top] + [c for c in classes if c is not top]
+    elif layout == "package":
+        for c in classes:
+            c["parent"] = "KP"
+        classes = [{"id": "KP", "parent": None, "kind": "package"}] + classes
     return L.Lib({"classes": classes})
 
 
@@ -112,7 +138,9 @@ def env_for(top):
 
 
 def none_or(v):
-    return None if v is None else float(v)
+    if v is None or isinstance(v, (bool, str)):
+        return v
+    return float(v)
 
 
 def expected_summary(case):
@@ -152,6 +180,15 @@ def flat_summary(fc, leaf, env, leaf_param):
 
 
 def check_case(ctx, case):
+    try:
+        return _check_case(ctx, case)
+    except Violation as v:
+        if case.get("layout") == "local" and case.get("chain", True):
+            v.kind += "+local_extends_scope"
+        raise
+
+
+def _check_case(ctx, case):
     from pymoca import ast, parser, tree
 
     lib = build_lib(case)
@@ -166,7 +203,8 @@ def check_case(ctx, case):
             if t is None:
                 results[sp] = ("rejected", "syntax")
                 continue
-            fc = tree.flatten(t, ast.ComponentRef(name=case["top"])).classes[case["top"]]
+            path = ".".join(lib.path(case["top"]))
+            fc = tree.flatten(t, ast.ComponentRef.from_string(path)).classes[path]
         except Exception as e:  # noqa: BLE001 - "rejected" is an accepted outcome per spelling
             results[sp] = ("rejected", type(e).__name__)
             continue
@@ -187,7 +225,9 @@ def check_case(ctx, case):
             raise Violation("unresolved_reference:" + sp, "%s\n%s" % (got["unresolved"], texts[sp]))
         for a in ATTRS:
             g, w = got[a], exp[a]
-            if (g is None) != (w is None) or (g is not None and not isclose(g, w, 1e-9, 1e-12)):
+            if a == "fixed":
+                g, w = bool(g), bool(w)  # unspecified fixed is false
+            if (g is None) != (w is None) or (g is not None and not (g == w if isinstance(w, (bool, str)) else isclose(g, w, 1e-9, 1e-12))):
                 # classify: wrong attribute target, wrong scope or wrong precedence
                 kind = "attribute:%s" % ("value" if a == "value" else "attr")
                 raise Violation(
@@ -198,7 +238,7 @@ def check_case(ctx, case):
     scope_sensitive = any(
         lv in ("comp", "outer") and any(n[0] == "var" for n in X.walk(e)) for lv, ms in case["mods"].items() for a, e in ms
     )
-    labels = ["top:" + case["top"], "accepted:%d" % len(accepted)]
+    labels = ["top:" + case["top"], "accepted:%d" % len(accepted), "layout:" + case.get("layout", "top")]
     labels += ["rejected:" + sp for sp in SPELLINGS if results[sp][0] != "ok"]
     labels += ["level:" + lv for lv, ms in case["mods"].items() if ms]
     labels += ["attr:" + a for a in case["attrs"]]
@@ -209,7 +249,7 @@ def check_case(ctx, case):
 
 
 def shard(ctx):
-    drive(ctx, case_strategy(), check_case, ctx.share(600, 30000))
+    drive(ctx, case_strategy(ctx), check_case, ctx.share(600, 30000))
 
 
 def replay(ctx, case):
